@@ -95,3 +95,40 @@ Definition neo_import_check (x : lang * content) : bool :=
     end
   | LErr _ => false
   end.
+
+(* the whole of get_model: the reading of the query results (import_links) followed by the rebuild through the Model
+   API (ModelLoad.load on the assets and one association per imported link), against the model the implementation
+   built (observed like a history of API calls) *)
+From MT Require Import Model ModelOps ModelLoad.
+Definition assoc_key (a : cassoc) : string :=
+  (cc_class a ++ "/" ++ cc_lfield a ++ "/" ++ String.concat "," (map string_of_Z (cc_left a)) ++ "/" ++ cc_rfield a ++ "/"
+   ++ String.concat "," (map string_of_Z (cc_right a)))%string.
+(* the database returns nodes and rows in no particular order: assets and associations are compared as multisets *)
+Definition neo_load_check (x : lang * content * content) : bool :=
+  let '(L, c, back) := x in
+  match lg_assocs L with
+  | LOk created =>
+    let first_field cls := match dget seqb (assoc_classes created) cls with Some k => fs_name (k_l k) | None => "" end in
+    match import_links (scad_class_of L created) first_field (export_nodes c) (export_rels c) with
+    | Some links =>
+      match omap (fun p => let '(cls, f1, x, f2, y) := p in
+                           match Z_of_string x, Z_of_string y with
+                           | Some xi, Some yi => Some (mkCC cls f1 [xi] f2 [yi] [])
+                           | _, _ => None
+                           end) links with
+      | Some assocs =>
+        let c' := mkC (c_name c) (map (fun a => mkCA (ca_id a) (ca_name a) (ca_type a) [] []) (c_assets c)) assocs [] in
+        match load (class_defenses L) c' with
+        | (s, MOk) =>
+          let got := content_of (class_defenses L) (c_name c) s in
+          list_eqb casset_eqb (isort (fun a b => Z.leb (ca_id a) (ca_id b)) (c_assets got))
+                              (isort (fun a b => Z.leb (ca_id a) (ca_id b)) (c_assets back)) &&
+          list_eqb seqb (isort String.leb (map assoc_key (c_assocs got))) (isort String.leb (map assoc_key (c_assocs back)))
+        | _ => false
+        end
+      | None => false
+      end
+    | None => false
+    end
+  | LErr _ => false
+  end.
